@@ -339,8 +339,15 @@ class Cached(Evaluatable[A]):
 
     def validate(self, options: Options) -> None:
         """If the value is not in the cache, validate the evaluatable."""
-        if not CacheExistsRequest(self.evaluatable, options, self.cache).run():
-            self.evaluatable.validate(options)
+        if CacheExistsRequest(self.evaluatable, options, self.cache).run():
+            try:
+                # as in evaluate: an entry that is claimed but cannot be retrieved is no entry
+                CacheGetRequest(self.evaluatable, options, self.cache).run()
+                return
+            except CacheGetFailure:
+                pass
+
+        self.evaluatable.validate(options)
 
     def keys(self, options: Options) -> Set[str]:
         """Return the keys required to evaluate the evaluatable."""
